@@ -404,6 +404,13 @@ def check(prop: str) -> int:
         for _ in range(nrand):
             init, events = random_history(rnd, prop, length)
             jobs.append((init, events, None))
+        if prop in ("C04", "C06"):
+            # the same kind of history with the gateway on a real MQTTClient (over a fake broker client)
+            for _ in range(nrand // 3):
+                init, events = random_history(rnd, prop, length)
+                init["mqtt"] = True
+                events = [e for e in events if e["k"] in ("recv", "send", "reboot") and not e.get("fault")]
+                jobs.append((init, events, None))
         if prop == "C08":
             for _ in range(nrand // 2):
                 init, events = storm_history(rnd)
